@@ -219,9 +219,37 @@ func (c14Harness) Run(spec any) (res verifsim.RunResult) {
 					infos = append(infos, si)
 				}
 				res.Counters["sessions_created_low_entropy"] += int64(len(infos))
+				// end every third session (its host connects and leaves): the codes of all
+				// the others must keep admitting peers
+				ended := map[int]bool{}
+				for i, si := range infos {
+					if i%3 != 2 {
+						continue
+					}
+					if st, c := try("10.0.3.1", si.Code, "h", "sender"); st == 101 {
+						c.Close()
+						ended[i] = true
+					}
+				}
+				time.Sleep(time.Second)
+				for i, si := range infos {
+					if ended[i] {
+						if st, c := try("10.0.3.7", si.Code, "late", "receiver"); st == 101 {
+							addV("code-accepted-after-host-left", "unique", fmt.Sprintf("code %s still admits peers after its host left", si.Code))
+							c.Close()
+						}
+						continue
+					}
+					st, c := try("10.0.3.6", si.Code, fmt.Sprintf("probe%d", i), "receiver")
+					if st != 101 {
+						addV("code-refused-while-live", "after-other-sessions-ended", fmt.Sprintf("join code %s of live session %s is refused (HTTP %d) after unrelated sessions ended", si.Code, si.ID, st))
+					} else {
+						c.Close()
+					}
+				}
 				// every code leads to its own session
 				for i, si := range infos {
-					if i%4 != 0 {
+					if i%4 != 0 || ended[i] {
 						continue
 					}
 					st, c := try("10.0.3.1", si.Code, "h", "sender")
